@@ -73,6 +73,30 @@ func runC11(c *Ctx) {
 
 	ruleQuotedString(c)
 
+	R.Rule("R-args-single-equals", "E3", "parseArgs splits a parameter at every '=' and accepts only one or two pieces: a value containing a raw '=' (malformed per RFC 5321/3461) is refused", 3)
+	if f := c.A.Func("parseArgs"); f != nil {
+		_, sm := c.Std()
+		unbounded := false
+		allInstrs(f, func(in ssa.Instruction) {
+			if isStaticCall(in, "strings.Split") {
+				if k, ok := constString(callCommon(in).Args[1]); ok && k == "=" {
+					unbounded = true
+				}
+			}
+		})
+		R.Ob("parseArgs/splits at every '='", c.P.Pos(f.Pos()), unbounded, "key and value are no longer separated with an unbounded strings.Split on '=': a second '=' inside the value is not detected")
+		nStores := 0
+		allInstrs(f, func(in ssa.Instruction) {
+			if mu, ok := in.(*ssa.MapUpdate); ok && strings.HasPrefix(describe(mu.Map), "makemap") {
+				nStores++
+				ok1, _ := c.factMatch(in, `^builtin:len\(strings\.Split\(.*,"="\)\) == [12]$`)
+				R.Ob(c.siteKey(in, "parameter stored only for 1 or 2 pieces"), c.P.InstrPos(in), ok1, "a parameter is stored without the piece count being exactly 1 or 2")
+			}
+		})
+		R.Ob("parseArgs/stores parameters", c.P.Pos(f.Pos()), nStores >= 2, fmt.Sprintf("%d parameter stores", nStores))
+		_ = sm
+	}
+
 	R.Rule("R-param-flow", "E4 value flow + E3", "each option field is stored only in its own parameter's case from the decoded value; the envelope path given to the backend is the parser's result", 14)
 	flows := map[string][]fieldFlow{
 		"(*Conn).handleMail": {
